@@ -261,7 +261,7 @@ COMPONENTS = {
     'ratelimiter': {
         'spec_files': ['RateLimiter.tla', 'MC_RateLimiter.tla', 'Trace_RateLimiter.tla'],
         'mc': {'quick': [{'cfg': 'MC_RateLimiter_q.cfg', 'module': 'MC_RateLimiter'}],
-               'thorough': [{'cfg': 'MC_RateLimiter.cfg', 'module': 'MC_RateLimiter'}]},
+               'thorough': [{'cfg': 'MC_RateLimiter_t.cfg', 'module': 'MC_RateLimiter'}]},
         'gen': {'cfg': 'Gen_RateLimiter.cfg', 'module': 'MC_RateLimiter', 'num': {'quick': 400, 'thorough': 5000}, 'depth': 40},
         'trace_module': 'Trace_RateLimiter', 'trace_cfg_tmpl': 'Trace_RateLimiter.cfg.tmpl',
         'harness': 'ratelimiter',
